@@ -839,7 +839,20 @@ pub fn judge(doc: &str, evs: &[Ev], children_alive: &[u32], judge_done_after_las
                         let why = if name.starts_with("done.invoke.") {
                             "done.invoke-bypass"
                         } else if insts.iter().any(|x| x.id == insts[k].id && x.sid != insts[k].sid && !x.cancelled && !x.done) {
-                            "same-id-reinvoked"
+                            // the known finding C14-reused-invoke-id is about AUTHOR-CHOSEN ids (<invoke id=X>
+                            // re-entered while events of the old X are in flight); an id the platform generated
+                            // itself must never be handed out twice, so the same symptom for an <invoke> without
+                            // id attribute is a different defect and gets its own signature
+                            let explicit = inv
+                                .get(&insts[k].state)
+                                .and_then(|v| v.iter().find(|t| t.doc_id == insts[k].doc_id))
+                                .map(|t| !t.id.is_empty())
+                                .unwrap_or(true);
+                            if explicit {
+                                "same-id-reinvoked"
+                            } else {
+                                "generated-id-reinvoked"
+                            }
                         } else {
                             "other"
                         };
